@@ -485,14 +485,62 @@ def K_diff(a, b):
     return "?"
 
 
+def nrpys_predictions():
+    """A domain substrate predictions of the NRPS/PKS analysis, as NRPS_PKS_Results stores them per domain: every combination of a
+    binding pocket signature (certain / with ten gaps = uncertain), none / one / two Stachelhaus matches and an SVM answer"""
+    from antismash.modules.nrps_pks.name_mappings import get_substrate_by_name  # pylint: disable=import-outside-toplevel
+    from antismash.modules.nrps_pks.nrpys import PredictorSVMResult, StachelhausMatch, SvmPrediction  # pylint: disable=import-outside-toplevel
+    ala, gly = get_substrate_by_name("Ala"), get_substrate_by_name("Gly")
+    aa10 = "DALFLGMTFK"
+    for aa34 in ("LDAFDASVWEMFGTLLNGGSVYGPTEATMCATWK", "L--FD-----------GDRNMYGPTEATMCATW-"):
+        for matches in ([], [([ala], 0.7, 0.5)], [([ala], 1.0, 0.9), ([gly], 1.0, 0.4)]):
+            for single in (("N/A", 0.0, []), ("ala", 1.0, [ala])):
+                stach = [StachelhausMatch(list(subs), aa10, a10, a34) for subs, a10, a34 in matches]
+                none = lambda: SvmPrediction("N/A", 0.0, [])  # noqa: E731
+                yield ({"aa34": aa34, "matches": len(matches), "svm": single[0]},
+                       PredictorSVMResult(aa34, aa10, stach, none(), none(), none(), SvmPrediction(*single)))
+
+
+def check_nrpys(label, prediction):
+    from antismash.modules.nrps_pks.results import NRPS_PKS_Results, generate_nrps_consensus  # pylint: disable=import-outside-toplevel
+    results = NRPS_PKS_Results("rec")
+    results.add_method_results("nrpys", {"nrpspksdomains_cds1_AMP-binding.1": prediction})
+    fails = []
+    texts = [as_json.dumps(results.to_json())]
+    current = results
+    for _cycle in range(3):
+        current = NRPS_PKS_Results.from_json(as_json.loads(texts[-1]), None)
+        if current is None:
+            return [("nrpys-results-not-regenerated", str(label))]
+        texts.append(as_json.dumps(current.to_json()))
+    if len(set(texts)) > 1:
+        fails.append(("nrpys-json-not-stable", f"{label}: cycle {[t == texts[0] for t in texts]}"))
+    again = current.domain_predictions["nrpspksdomains_cds1_AMP-binding.1"]["nrpys"]
+    if generate_nrps_consensus({"nrpys": prediction}) != generate_nrps_consensus({"nrpys": again}):
+        fails.append(("nrpys-consensus-changes", f"{label}: {generate_nrps_consensus({'nrpys': prediction})} -> "
+                                                  f"{generate_nrps_consensus({'nrpys': again})}"))
+    return fails
+
+
 def shards(tier):
     depth = 4 if tier == "quick" else 6
-    return [[fam, spec, depth] for fam, spec in objects(tier)]
+    return [[fam, spec, depth] for fam, spec in objects(tier)] + [["values:nrpys", None, 3]]
 
 
 def run_shard(shard):
     fam, spec, depth = shard
     res = Result()
+    if fam == "values:nrpys":
+        for label, prediction in nrpys_predictions():
+            res.evals += 3
+            res.nontrivial += 3
+            res.buckets["values:nrpys"] += 1
+            fails = check_nrpys(label, prediction)
+            res.outcomes[("nrpys", tuple(c for c, _ in fails))] += 1
+            for clause, detail in fails:
+                res.fail({"family": fam, "label": label}, clause, detail)
+        res.extra["traces_validated_against_impl"] = res.evals
+        return res
     states, transitions = explore_object(fam, spec, depth, res)
     res.extra["states"] = states
     res.extra["transitions"] = transitions
@@ -508,6 +556,8 @@ def finalize(cov, tier):
 
 
 def replay(case):
+    if case["family"] == "values:nrpys":
+        return [f for label, prediction in nrpys_predictions() if label == case["label"] for f in check_nrpys(label, prediction)]
     res = Result()
     explore_object(case["family"], case["spec"], len(case["hist"]), res)
     wanted = [(clause, detail) for c, clause, detail in res.failures if c["hist"] == case["hist"]]
